@@ -115,6 +115,15 @@ func (t *Object) GetField(name string) *FieldDef {
 
 // Validate a type.
 func (t *Object) Validate(root *Root) (errs []error) {
+	for i, it := range t.Interfaces {
+		for _, prev := range t.Interfaces[:i] {
+			if prev.Name() == it.Name() {
+				errs = append(errs, fmt.Errorf("%w, interface %s is listed more than once on %s at %d:%d",
+					ErrValidation, it.Name(), t.Name(), t.line, t.col))
+				break
+			}
+		}
+	}
 	for _, it := range t.Interfaces {
 		if i, ok := it.(*Interface); ok {
 			errs = append(errs, t.validateInterface(i)...)
